@@ -112,33 +112,60 @@ def readFiles (numFolders : Nat) (salvage : Bool) :
         -- (up to) 256-byte read, not re-positioned
         if salvage then readFiles numFolders salvage n (r.read 256).2 acc else .error e
 
-/-- `cabd_read_headers(sys, fh, cab, offset, salvage, quiet)`; `quiet` only affects messages -/
-def readHeaders (file : Bytes) (offset : Nat) (salvage : Bool) : Except Err Cabinet := do
-  let r : Rd := ⟨file, offset⟩
-  let (buf, r) ← (r.readExact 36).elim (.error .read) .ok
-  if u32At buf 0 ≠ 0x4643534D then throw .signature
+/-- the optional reserve header: (header_resv, folder_resv, block_resv, handle after it) -/
+def readReserve (flags : Nat) (r : Rd) : Except Err (Nat × Nat × Nat × Rd) :=
+  if flags &&& 4 ≠ 0 then
+    match r.readExact 4 with
+    | none => .error .read
+    | some (e, r) =>
+      let hr := u16At e 0
+      .ok (hr, (byteAt e 2).toNat, (byteAt e 3).toNat, if hr ≠ 0 then r.seekCur hr else r)
+  else .ok (0, 0, 0, r)
+
+/-- the four optional strings, in file order -/
+def readSetStrings (flags : Nat) (r : Rd) :
+    Except Err (Option Bytes × Option Bytes × Option Bytes × Option Bytes × Rd) :=
+  match optString r (flags &&& 1 ≠ 0) false with
+  | .error e => .error e
+  | .ok (prevname, r) =>
+  match optString r (flags &&& 1 ≠ 0) true with
+  | .error e => .error e
+  | .ok (previnfo, r) =>
+  match optString r (flags &&& 2 ≠ 0) false with
+  | .error e => .error e
+  | .ok (nextname, r) =>
+  match optString r (flags &&& 2 ≠ 0) true with
+  | .error e => .error e
+  | .ok (nextinfo, r) => .ok (prevname, previnfo, nextname, nextinfo, r)
+
+/-- `cabd_read_headers(sys, fh, cab, offset, salvage, quiet)`; `quiet` only affects messages.
+    (Written with explicit matches rather than `do` + early `throw`, which keeps the term linear
+    for the proofs.) -/
+def readHeaders (file : Bytes) (offset : Nat) (salvage : Bool) : Except Err Cabinet :=
+  match (⟨file, offset⟩ : Rd).readExact 36 with
+  | none => .error .read
+  | some (buf, r) =>
+  if u32At buf 0 ≠ 0x4643534D then .error .signature else
   let numFolders := u16At buf 0x1A
-  if numFolders = 0 then throw .dataformat
+  if numFolders = 0 then .error .dataformat else
   let numFiles := u16At buf 0x1C
-  if numFiles = 0 then throw .dataformat
+  if numFiles = 0 then .error .dataformat else
   let flags := u16At buf 0x1E
-  let (headerResv, folderResv, blockResv, r) ←
-    if flags &&& 4 ≠ 0 then
-      match r.readExact 4 with
-      | none => throw .read
-      | some (e, r) =>
-        let hr := u16At e 0
-        pure (hr, (byteAt e 2).toNat, (byteAt e 3).toNat, if hr ≠ 0 then r.seekCur hr else r)
-    else pure (0, 0, 0, r)
-  let (prevname, r) ← optString r (flags &&& 1 ≠ 0) false
-  let (previnfo, r) ← optString r (flags &&& 1 ≠ 0) true
-  let (nextname, r) ← optString r (flags &&& 2 ≠ 0) false
-  let (nextinfo, r) ← optString r (flags &&& 2 ≠ 0) true
-  let (folders, r) ← readFolders offset folderResv numFolders r []
-  let (files, _) ← readFiles numFolders salvage numFiles r []
-  if files.isEmpty then throw .dataformat
-  pure { baseOffset := offset, length := u32At buf 8, setId := u16At buf 0x20,
-         setIndex := u16At buf 0x22, flags := flags, headerResv := headerResv,
-         blockResv := blockResv, prevname, previnfo, nextname, nextinfo, folders, files }
+  match readReserve flags r with
+  | .error e => .error e
+  | .ok (headerResv, folderResv, blockResv, r) =>
+  match readSetStrings flags r with
+  | .error e => .error e
+  | .ok (prevname, previnfo, nextname, nextinfo, r) =>
+  match readFolders offset folderResv numFolders r [] with
+  | .error e => .error e
+  | .ok (folders, r) =>
+  match readFiles numFolders salvage numFiles r [] with
+  | .error e => .error e
+  | .ok (files, _) =>
+  if files.isEmpty then .error .dataformat else
+  .ok { baseOffset := offset, length := u32At buf 8, setId := u16At buf 0x20,
+        setIndex := u16At buf 0x22, flags := flags, headerResv := headerResv,
+        blockResv := blockResv, prevname, previnfo, nextname, nextinfo, folders, files }
 
 end MsPack.Cab
